@@ -65,6 +65,16 @@ func newSessionController(uconn *UConn) *sessionController {
 	}
 }
 
+// resetForNewGoTLSHello forgets that conn.loadSession has been called, so that
+// it may run once more for a ClientHello that Go TLS builds from scratch (a
+// renegotiation handshake of a HelloGolang connection). The session related
+// extensions and the controller state are left alone: a Go-built hello never
+// locks the controller.
+func (s *sessionController) resetForNewGoTLSHello() {
+	s.loadSessionTracker = NeverCalled
+	s.callingLoadSession = false
+}
+
 func (s *sessionController) isSessionLocked() bool {
 	return s.locked
 }
